@@ -71,6 +71,16 @@ def run(chk: Check):
         wnp = None if weights is None else np.array(weights)
         which = rng.choice(["minkowski", "msm", "fourier", "gsl", "likelihood"]) if ci >= 10 else ["gsl", "gsl", "gsl", "fourier", "fourier", "minkowski", "minkowski", "minkowski", "minkowski", "minkowski"][ci]
         forced_p = [float("inf"), 0.5, 25, 1.5, float("inf")][ci - 5] if 5 <= ci < 10 else None      # every run: the unusual orders
+        if ci >= 10 and ci % 5 == 2:
+            # an ensemble in which some - not all - members are element-wise identical (a model that ignores its seed for some parameters, a seed drawn
+            # twice): the loss is still the plain average over ALL members; every loss class in turn
+            which = ["gsl", "msm", "gsl", "likelihood", "gsl", "fourier", "gsl", "minkowski"][(ci // 5) % 8]
+            e = max(e, 3)
+            sim, real, shape = gen_data(rng, e, n, d)
+            for j in rng.sample(range(1, e), rng.randint(1, e - 2)):
+                sim[j] = sim[0]
+            shape += "+identical_members"
+            chk.count("ensemble:some_members_identical")
         # (the first three: long structured GSL-div cases; then two Fourier cases whose cut-off f*n_freq is an exact half-integer tie)
         chk.count("loss:" + which); chk.count("data:" + shape)
         case = {"case": {"loss": which, "E": e, "N": n, "D": d, "shape": shape, "weights": weights}}
